@@ -545,6 +545,23 @@ class Flow:
                     inl = self._inline(callee, args, dict(kws))
                     if inl is not None:
                         return inl
+            # a method of a record type (a NamedTuple class with methods) called on a record whose fields are known: the method's
+            # value with `self` bound to the record (func_resolver("<Class>.<method>") finds it)
+            if obj[0] == "record" and self.func_resolver is not None and self._depth < 2 and all(k != "**" for k, _ in kws) \
+                    and not any(nm == f.attr for nm, _ in obj[2]):
+                callee = self.func_resolver(f"{obj[1]}.{f.attr}")
+                if callee is not None and callee is not self.func and not callee.decorator_list:
+                    inl = self._inline(callee, (obj,) + args, dict(kws), bare=True)
+                    if inl is not None:
+                        return inl
+            # an alternative constructor of a record type (`Rec.from_line(s)`, a classmethod that returns cls(..)): its value with `cls`
+            # bound to the type
+            if obj[0] == "rectype" and self.func_resolver is not None and self._depth < 2 and all(k != "**" for k, _ in kws):
+                callee = self.func_resolver(f"{obj[1]}.{f.attr}")
+                if callee is not None and callee is not self.func and [ast.unparse(d) for d in callee.decorator_list] == ["classmethod"]:
+                    inl = self._inline(callee, args, dict(kws), recv=obj)
+                    if inl is not None:
+                        return inl
             return ("meth", obj, f.attr, args, kws)
         # dispatch table: `table = {"k": self._m1, ...}; fn = table.get(key) / table[key]; fn(args)` is the if/elif chain
         # `key == "k" -> self._m1(args)` written as data
@@ -641,7 +658,7 @@ class Flow:
                 parts.append(("fmt", val, spec or None, c))
         return flatten_fstr(("fstr", tuple(parts)))
 
-    def _inline(self, callee, args, kws=None, bare=False):
+    def _inline(self, callee, args, kws=None, bare=False, recv=None):
         """Value returned by a small, loop-free helper method for these argument values (phi over its returns).  Instance, class
         and static methods (bare=True: a module-level function, no receiver); positional and keyword arguments; defaults."""
         kws = kws or {}
@@ -650,14 +667,21 @@ class Flow:
             return None
         params = [p.arg for p in callee.args.args]
         decs = {ast.unparse(d) for d in callee.decorator_list}
-        if callee.args.vararg or callee.args.kwarg or callee.args.kwonlyargs or decs - {"staticmethod", "classmethod"}:
+        if callee.args.kwarg or callee.args.kwonlyargs or decs - {"staticmethod", "classmethod"}:
             return None
         preset = {}
+        if callee.args.vararg:
+            # def h(a, *rest): the surplus positional arguments are the tuple `rest` (no starred argument at the call)
+            npos = len(params) - (0 if ("staticmethod" in decs or bare) else 1)
+            if any(a_[0] == "star" for a_ in args) or len(args) < npos or kws or callee.args.defaults:
+                return None
+            preset[callee.args.vararg.arg] = ("tuple", tuple(args[npos:]))
+            args = tuple(args[:npos])
         if "staticmethod" not in decs and not bare:
             if not params:
                 return None
-            recv, params = params[0], params[1:]
-            preset[recv] = ("param", "self") if "classmethod" not in decs else ("param", "cls")
+            rname, params = params[0], params[1:]
+            preset[rname] = recv if recv is not None else ("param", "self") if "classmethod" not in decs else ("param", "cls")
         if len(args) > len(params) or any(k not in params for k in kws):
             return None
         preset.update(zip(params, args))
@@ -1517,6 +1541,130 @@ def norm_bv(m):
 _RE_NARGS = {"sub": (2, 3), "subn": (2, 3), "split": (1, 2), "findall": (1, 1), "finditer": (1, 1), "search": (1, 1), "match": (1, 1), "fullmatch": (1, 1)}
 
 
+def _const_tree(v, depth=0) -> bool:
+    """a conditional value (phi / ifexp tree) whose every leaf is a constant"""
+    if v[0] in ("phi", "ifexp") and len(v) == 4 and depth < 64:
+        return _const_tree(v[2], depth + 1) and _const_tree(v[3], depth + 1)
+    return v[0] == "const"
+
+
+def _value_tree(v, depth=0) -> bool:
+    """a conditional value whose every leaf is visibly None or visibly not None (a constant, a closure, text, a display, a record)"""
+    if v[0] in ("phi", "ifexp") and len(v) == 4 and depth < 64:
+        return _value_tree(v[2], depth + 1) and _value_tree(v[3], depth + 1)
+    return v[0] in ("const", "lambda", "fstr", "list", "tuple", "dict", "set", "record")
+
+
+def _map_leaves(v, f):
+    if v[0] in ("phi", "ifexp") and len(v) == 4:
+        return (v[0], v[1], _map_leaves(v[2], f), _map_leaves(v[3], f))
+    return f(v)
+
+
+def _bool_of_tree(v):
+    """the condition a phi tree with True / False leaves states: `c ? True : (d ? False : True)` is `c or not d`"""
+    if v[0] not in ("phi", "ifexp"):
+        return v
+    c, a, b = v[1], _bool_of_tree(v[2]), _bool_of_tree(v[3])
+    T, F = ("const", True), ("const", False)
+    neg = ("unop", "Not", c)
+
+    def join(op, x, y):
+        parts = tuple(z for w in (x, y) for z in (w[2] if w[0] == "bool" and w[1] == op else (w,)))
+        return ("bool", op, parts)
+    if a == b:
+        return a
+    if (a, b) == (T, F):
+        return c
+    if (a, b) == (F, T):
+        return neg
+    if a == F:
+        return join("And", neg, b)
+    if a == T:
+        return join("Or", c, b)
+    if b == F:
+        return join("And", c, a)
+    if b == T:
+        return join("Or", neg, a)
+    return (v[0], c, a, b)
+
+
+def _simp_selection(v):
+    """First-match selection from a table of known rows, and what is done with the selected constant:
+
+        next((E(r) for r in <display> if C(r)), D)   ->  phi(C(r1), E(r1), phi(C(r2), E(r2), .. D))     (the scan written out; without D the
+                                                         last arm is the StopIteration the call raises)
+        <conditional constant> is None / == K        ->  the condition under which the selected constant satisfies the test
+        getattr(x, <conditional constant>)           ->  the conditional of the attributes x.<name>
+        <conditional callable>(args)                 ->  the conditional of the calls  (x.<name>(args) is the method call)
+
+    so that `name = next(..table..); if name is None: raise; getattr(self, name)(reac)` is read as the if/elif chain of method calls it
+    abbreviates.  None when `v` is none of these."""
+    k = v[0]
+    if k == "call" and v[1] == ("global", "next") and len(v[2]) in (1, 2) and not v[3]:
+        src = v[2][0]
+        dflt = v[2][1] if len(v[2]) == 2 else ("raise", ("global", "StopIteration"))
+        if src[0] == "list" and not any(e[0] == "star" for e in src[1]):
+            return src[1][0] if src[1] else dflt           # (a generator over known rows whose filters were all decided)
+        if src[0] == "comp" and src[1] == "gen" and len(src[3]) == 1 and src[3][0][0] is not None and src[3][0][1][0] in ("tuple", "list") \
+                and 0 < len(src[3][0][1][1]) <= 64 and not any(e[0] == "star" for e in src[3][0][1][1]):
+            tg, it, ifs = src[3][0]
+            names = [tg] if tg[0] == "bv" else list(tg[1]) if tg[0] == "tuple" and all(t is not None and t[0] == "bv" for t in tg[1]) else None
+            rows = []
+            for e in (it[1] if names is not None else ()):
+                if tg[0] == "bv":
+                    rows.append({tg: e})
+                elif e[0] in ("tuple", "list") and len(e[1]) == len(names) and not any(x[0] == "star" for x in e[1]):
+                    rows.append(dict(zip(names, e[1])))
+                else:
+                    rows = None
+                    break
+            if rows:
+                out = dflt
+                for m in reversed(rows):
+                    conds = [simp(subst(c_, m)) for c_ in ifs]
+                    cond = conds[0] if len(conds) == 1 else ("bool", "And", tuple(conds)) if conds else ("const", True)
+                    t = truthy(cond) if cond[0] == "const" else None
+                    elt = simp(subst(src[2], m))
+                    out = elt if t is True else out if t is False else ("phi", cond, elt, out)
+                return out
+    if k == "cmp" and len(v[1]) == 1 and v[1][0] in ("Is", "IsNot", "Eq", "NotEq") and len(v[2]) == 2 and v[2][0][0] == "const" and v[2][1][0] == "const":
+        # two literals compared (a default `convert=None` tested with `is None` once the helper is back in place)
+        x, y = v[2][0][1], v[2][1][1]
+        if v[1][0] in ("Is", "IsNot") and (x is None or y is None or (isinstance(x, bool) and isinstance(y, bool))):
+            return ("const", (x is y) == (v[1][0] == "Is"))
+        if v[1][0] in ("Eq", "NotEq") and type(x) is type(y) and isinstance(x, (str, int, bool, type(None))):
+            return ("const", (x == y) == (v[1][0] == "Eq"))
+    if k in ("ifexp", "phi") and len(v) == 4 and v[1][0] == "const":
+        return v[2] if v[1][1] else v[3]
+    if k == "cmp" and len(v[1]) == 1 and v[1][0] in ("Is", "IsNot", "Eq", "NotEq") and len(v[2]) == 2:
+        a, b = v[2]
+        tree, other = (a, b) if a[0] in ("phi", "ifexp") else (b, a)
+        if tree[0] in ("phi", "ifexp") and other == ("const", None) and v[1][0] in ("Is", "IsNot") and not _const_tree(tree) and _value_tree(tree):
+            # (a selected closure / text / display is not None; only the literal None is)
+            return _bool_of_tree(_map_leaves(tree, lambda leaf: ("const", (leaf == ("const", None)) == (v[1][0] == "Is"))))
+        if tree[0] in ("phi", "ifexp") and other[0] == "const" and _const_tree(tree) \
+                and (v[1][0] in ("Eq", "NotEq") or other[1] is None or isinstance(other[1], bool)):
+            def test(leaf):
+                same = (leaf[1] is other[1]) if v[1][0] in ("Is", "IsNot") else (type(leaf[1]) is type(other[1]) and leaf[1] == other[1]) or \
+                    (not isinstance(leaf[1], (str, type(None))) and not isinstance(other[1], (str, type(None))) and leaf[1] == other[1])
+                return ("const", same if v[1][0] in ("Is", "Eq") else not same)
+            return _bool_of_tree(_map_leaves(tree, test))
+    if k == "call" and v[1] == ("global", "getattr") and len(v[2]) == 2 and not v[3] and v[2][1][0] in ("phi", "ifexp") and _const_tree(v[2][1]):
+        return _map_leaves(v[2][1], lambda leaf: ("attr", v[2][0], leaf[1]) if isinstance(leaf[1], str) and leaf[1].isidentifier()
+                           else ("call", ("global", "getattr"), (v[2][0], leaf), ()))
+    if k == "call" and v[1][0] in ("phi", "ifexp") and len(v[1]) == 4:
+        leaves = []
+        _map_leaves(v[1], lambda leaf: leaves.append(leaf) or leaf)
+        if any(l_[0] == "attr" for l_ in leaves) and all(l_[0] == "attr" or (l_[0] == "call" and l_[1] == ("global", "getattr")) for l_ in leaves):
+            return _map_leaves(v[1], lambda f: ("meth", f[1], f[2], v[2], v[3]) if f[0] == "attr" else ("call", f, v[2], v[3]))
+        # a closure selected from a table and called: the conditional of the bodies with the parameters bound
+        if any(l_[0] == "lambda" for l_ in leaves) and not v[3] and not any(a_[0] == "star" for a_ in v[2]) \
+                and all((l_[0] == "lambda" and len(l_[1]) == len(v[2])) or l_ == ("const", None) or l_[0] == "raise" for l_ in leaves):
+            return _map_leaves(v[1], lambda f: simp(subst(f[2], dict(zip(f[1], v[2])))) if f[0] == "lambda" else f if f[0] == "raise" else ("call", f, v[2], v[3]))
+    return None
+
+
 def simp(v):
     """Bottom-up simplification with the two rewrite rules of DESIGN E2."""
     if not isinstance(v, tuple) or not v:
@@ -1549,6 +1697,10 @@ def simp(v):
                     continue
             parts.append(p)
         return flatten_fstr(("fstr", tuple(parts)))
+    # ---- first-match selection from a table and the conditional value it yields (values only, nothing is run) ----
+    r_ = _simp_selection(v)
+    if r_ is not None:
+        return r_
     # ---- the same string / list spelled with builtins instead of displays (values only, nothing is run) ----
     if k == "call" and v[1][0] == "global" and not v[3]:
         fn, args = v[1][1], v[2]
@@ -1575,9 +1727,9 @@ def simp(v):
             elif which == "itemgetter" and arg[0] == "const":
                 body = simp(("sub", bv, arg))
         elif (f[0] == "call" and f[1] == ("global", "methodcaller") and f[2]) or (f[0] == "meth" and f[1] == ("global", "operator") and f[2] == "methodcaller" and f[3]):
-            # operator.methodcaller("m", *args, **kw)(x) is x.m(*args, **kw)
+            # operator.methodcaller("name", *args, **kws)(x) is x.name(*args, **kws)
             margs, mkws = (f[2], f[3]) if f[0] == "call" else (f[3], f[4])
-            if margs[0][0] == "const" and isinstance(margs[0][1], str) and margs[0][1].isidentifier():
+            if margs[0][0] == "const" and isinstance(margs[0][1], str) and margs[0][1].isidentifier() and not any(a_[0] == "star" for a_ in margs):
                 body = ("meth", bv, margs[0][1], tuple(margs[1:]), tuple(mkws))
         if body is not None:
             if v[1][1] == "map":
@@ -1607,6 +1759,27 @@ def simp(v):
         fv = v[2][0]
         elt = simp(subst(fv[2], {fv[1][0]: bv})) if fv[0] == "lambda" and len(fv[1]) == 1 else ("call", fv, (bv,), ())
         return ("comp", "gen", elt, ((bv, v[2][1], ()),))
+    # a call with a starred display among its arguments passes the elements: f(*("a", "b")) == f("a", "b")
+    if k in ("call", "meth"):
+        ai = 2 if k == "call" else 3
+        if any(e[0] == "star" and e[1][0] in ("list", "tuple") and not any(x[0] == "star" for x in e[1][1]) for e in v[ai]):
+            args = tuple(x for e in v[ai] for x in (e[1][1] if e[0] == "star" and e[1][0] in ("list", "tuple") and not any(y[0] == "star" for y in e[1][1]) else (e,)))
+            return simp(v[:ai] + (args,) + v[ai + 1:])
+    # operator.attrgetter("a", "b")(x) is (x.a, x.b); attrgetter("a")(x) is x.a; itemgetter(i, j)(x) is (x[i], x[j])
+    if k == "call" and len(v[2]) == 1 and not v[3] and v[2][0][0] != "star":
+        g = v[1]
+        which, names = (g[1][1], g[2]) if g[0] == "call" and g[1] in (("global", "attrgetter"), ("global", "itemgetter")) and not g[3] else \
+            (g[2], g[3]) if g[0] == "meth" and g[1] == ("global", "operator") and g[2] in ("attrgetter", "itemgetter") and not g[4] else (None, ())
+        if which == "attrgetter" and names and all(n_[0] == "const" and isinstance(n_[1], str) and all(p_.isidentifier() for p_ in n_[1].split(".")) for n_ in names):
+            def dotted(x, path):
+                for p_ in path.split("."):
+                    x = ("attr", x, p_)
+                return x
+            got = tuple(dotted(v[2][0], n_[1]) for n_ in names)
+            return got[0] if len(got) == 1 else ("tuple", got)
+        if which == "itemgetter" and names and all(n_[0] == "const" for n_ in names):
+            got = tuple(simp(("sub", v[2][0], n_)) for n_ in names)
+            return got[0] if len(got) == 1 else ("tuple", got)
     # a display with a starred display inside is one display: [a, *[b, c], d] == [a, b, c, d]
     if k in ("list", "tuple", "set") and any(e[0] == "star" and e[1][0] in ("list", "tuple") for e in v[1]):
         elts = []
@@ -1826,6 +1999,15 @@ def simp(v):
         z = strip_transparent(v[1][1])
         if z[0] == "call" and z[1] == ("global", "zip") and not z[3] and 0 <= v[2] < len(z[2]) and not any(a[0] == "star" for a in z[2]):
             return simp(("elem", z[2][v[2]], v[1][2]))
+    # an element of enumerate(X[, start]) is the pair (position [+ start], element of X at that position) -- as Flow.bind_iter reads
+    # `for i, x in enumerate(X)`
+    if k == "elem" and len(v) == 3:
+        z = strip_transparent(v[1])
+        if z[0] == "call" and z[1] == ("global", "enumerate") and 1 <= len(z[2]) <= 2 and z[2][0][0] != "star" and all(k_ == "start" for k_, _ in z[3]) and len(z[2]) + len(z[3]) <= 2:
+            inner = strip_transparent(z[2][0])
+            start = z[2][1] if len(z[2]) == 2 else (z[3][0][1] if z[3] else None)
+            idx = ("idx", inner, v[2]) if start is None else ("binop", "Add", ("idx", inner, v[2]), start)
+            return ("tuple", (idx, simp(("elem", inner, v[2]))))
     if k == "item" and v[1][0] in ("tuple", "list") and isinstance(v[2], int) and not any(e[0] == "star" for e in v[1][1]):
         if -len(v[1][1]) <= v[2] < len(v[1][1]):
             return v[1][1][v[2]]
@@ -2200,7 +2382,8 @@ def peval(v, assume: dict, as_cond: bool = False):
     if k == "comp":
         gens = tuple((tg, peval(it, assume), tuple(peval(c, assume, True) for c in ifs)) for tg, it, ifs in v[3])
         return simp(("comp", v[1], peval(v[2], assume, as_cond), gens))
-    return simp(tuple(peval(x, assume, as_cond) if isinstance(x, tuple) else x for x in v))
+    # (the operands of a comparison / call are VALUES, not conditions: `abs(b) == 0.5` under the assumption "b is truthy" still reads b)
+    return simp(tuple(peval(x, assume, False) if isinstance(x, tuple) else x for x in v))
 
 
 def expand_bvals(flow, v):
